@@ -294,6 +294,7 @@ def run_property(prop, tier, groups, required_covers=None, assumptions=None, bou
                            "assertion is a solver query over all input values on that path",
             "jobs": job_table[:150],
             "jobs_total": len(job_table),
+            "slowest_jobs": sorted(job_table, key=lambda j: -j["wall_s"])[:15],
             "by_harness": agg,
             "outcomes": outcomes,
             "cover_goals": covers,
